@@ -1,6 +1,7 @@
 package rules
 
 import (
+	"strconv"
 	"fmt"
 	"go/token"
 	"go/types"
@@ -25,6 +26,7 @@ func c11(c *eng.Ctx, r *eng.Report) {
 		"R11.9 a write attempt in read-only context surfaces as ErrWriteProtection: Run refuses rows flagged `writes` under the interpreter-wide in.readOnly flag (not the frame argument) before operation.execute, and the flag is sticky across nested frames (shared with C12). " +
 		"R11.10 callGas/authCallGas return min(request, a - a/64) with a = available - base, and the four call-family gas functions call callGas(true, contract.Gas, …). " +
 		"R11.11 a precompile runs only after the caller paid for it, and the price compared with the supplied gas is RequiredGas(input) itself — no unchecked arithmetic between pricing and the affordability test (the precompiles size their allocations from the input on the strength of that price: MODEXP allocates what the header announces); " +
+		"R11.18 the fixed-width word setters get the bytes they read: every (*uint256.Int).SetBytesN(b) call in the vm package (SetBytes32 reads b[31] unconditionally) is handed a slice whose length is statically at least N — a slice of an array of N or more bytes, or a make of constant length; finding F28: BLOBHASH called SetBytes32 with an empty slice and PUSH1 0, BLOBHASH panicked through EVM.Call; " +
 		"R11.17 the price table a fork adjusts belongs to one interpreter: every value stored in EVMInterpreter.jumpTable is the result of a newInstructionSet() call made for that interpreter, and newInstructionSet takes no operation from a package-level variable — doProposal014/022/026 write through the table's *operation pointers (constantGas *= 30), so a table or entry shared between interpreters is re-priced once per EVM until the prices wrap to zero and gas no longer bounds a loop; " +
 		"R11.16 no function of the vm package reads a byte of the running contract's code at a position it has not compared with the code length: every index into Contract.Code by a non-constant position p+k is dominated by a guard on the same p that implies p+k < len(code) — `p+a < len` with k <= a, or `len-p >= m` (p the untouched program counter, which is below len when a handler runs) with k < m; a truncated PUSH at the end of the code reads zeroes, it does not index past the end; " +
 		"R11.12 no opcode handler slices a buffer with a bound that is the unchecked 64-bit sum or product of operand-derived values (`buf[off:off+len]` wraps for off near 2^64 and the slice expression panics): such bounds come out of 256-bit arithmetic with Uint64WithOverflow, SafeAdd/SafeMul, or the clamping accessor getData; " +
@@ -48,6 +50,7 @@ func c11(c *eng.Ctx, r *eng.Report) {
 	c11SliceBounds(c, r, rows)
 	c11CodeIndexGuarded(c, r)
 	c11OwnJumpTable(c, r)
+	c11FixedWidthSetBytes(c, r)
 	c11ModulusNonZero(c, r)
 	c11UnsignedSign(c, r)
 	c11CodeHashOfCode(c, r)
@@ -1566,4 +1569,79 @@ func c11OwnJumpTable(c *eng.Ctx, r *eng.Report) {
 		}
 	}
 	r.Check(bad == "", rule, "fresh-operations:newInstructionSet", c.Pos(nis.Pos()), "newInstructionSet reads no package-level table or operation", "newInstructionSet takes entries from the package-level "+bad+": the *operation values are then shared by every interpreter and the fork adjusters re-price them once per EVM")
+}
+
+// c11FixedWidthSetBytes: see R11.18.
+func c11FixedWidthSetBytes(c *eng.Ctx, r *eng.Report) {
+	const rule = "R11.18"
+	minLen := func(v ssa.Value) (int64, bool) {
+		v = eng.ResolveLocal(v)
+		switch x := v.(type) {
+		case *ssa.Slice:
+			t := x.X.Type()
+			if p, ok := t.Underlying().(*types.Pointer); ok {
+				t = p.Elem()
+			}
+			arr, ok := t.Underlying().(*types.Array)
+			if !ok {
+				return 0, false
+			}
+			lo, hi := int64(0), arr.Len()
+			if x.Low != nil {
+				k, isK := eng.ConstInt(x.Low)
+				if !isK {
+					return 0, false
+				}
+				lo = k
+			}
+			if x.High != nil {
+				k, isK := eng.ConstInt(x.High)
+				if !isK {
+					return 0, false
+				}
+				hi = k
+			}
+			return hi - lo, true
+		case *ssa.MakeSlice:
+			if k, ok := eng.ConstInt(x.Len); ok {
+				return k, true
+			}
+		case *ssa.Const:
+			if x.IsNil() {
+				return 0, true
+			}
+		}
+		return 0, false
+	}
+	n := 0
+	for _, fn := range c.PkgFuncs("vm") {
+		i := 0
+		for _, s := range eng.Sites(fn) {
+			nm := s.Name()
+			idx := strings.LastIndex(nm, "uint256.Int).SetBytes")
+			if idx < 0 {
+				continue
+			}
+			width, err := strconv.Atoi(nm[idx+len("uint256.Int).SetBytes"):])
+			if err != nil || width == 0 {
+				continue // the variable-length SetBytes
+			}
+			n++
+			key := fmt.Sprintf("set-bytes-%d:%s#%d", width, eng.FuncName(fn), i)
+			i++
+			args := s.Common().Args
+			got, known := minLen(args[len(args)-1])
+			switch {
+			case !known:
+				r.Fail(rule, key, c.Pos(s.Pos()), fmt.Sprintf("%s hands SetBytes%d a slice (%s) whose length the rule cannot bound from below: the setter reads byte %d unconditionally", eng.FuncName(fn), width, eng.Desc(args[len(args)-1]), width-1))
+			case got < int64(width):
+				r.Fail(rule, key, c.Pos(s.Pos()), fmt.Sprintf("%s hands SetBytes%d a slice of %d byte(s): uint256's fixed-width setter reads in[%d] unconditionally, so the opcode panics with index out of range and the panic unwinds through EVM.Call into the host instead of the frame ending as an ordinary call", eng.FuncName(fn), width, got, width-1))
+			default:
+				r.Pass(rule, key, c.Pos(s.Pos()), fmt.Sprintf("slice of %d bytes", got))
+			}
+		}
+	}
+	if n == 0 {
+		r.Pass(rule, "set-bytes:none", "", "no fixed-width SetBytesN call in package vm")
+	}
 }
